@@ -51,6 +51,8 @@ def cases(draw):
     return {"H": H, "W": W, "off": off, "L": L, "R": R, "sub": sub, "disps": disps, "cv": cv,
             "mask_left": draw(gen.sparse_mask(H, W)), "mask_right": draw(gen.sparse_mask(H, W)),
             "valid": conv[0], "nodata": conv[1],
+            # each image dataset announces its own mask convention: the right one may differ from the left one
+            "conv_right": draw(st.sampled_from([None, None, [1, 0], [0, 255], [2, 1]])),
             "dist": draw(st.integers(1, 6)), "inten": draw(st.sampled_from([0.5, 2.0, 5.0, 30.0])),
             "plane": draw(st.integers(0, nd - 1)), "type": draw(st.sampled_from(["min", "max"]))}
 
@@ -62,7 +64,8 @@ def body(ctx: Ctx, p: dict) -> None:
     L = np.array(p["L"], dtype=np.float32)
     R = np.array(p["R"], dtype=np.float32)
     ML = gen._mask(p["mask_left"], H, W, p["valid"], p["nodata"])
-    MR = gen._mask(p["mask_right"], H, W, p["valid"], p["nodata"])
+    vr, nr = p.get("conv_right") or (p["valid"], p["nodata"])
+    MR = gen._mask(p["mask_right"], H, W, vr, nr)
     disps = p["disps"]
     inner = build.arr(p["cv"])
     h, w, nd = inner.shape
@@ -81,7 +84,7 @@ def body(ctx: Ctx, p: dict) -> None:
 
     def run(cv_np, dlist):
         l = build.image_dataset(L, ML, (int(np.floor(disps[0])), int(np.ceil(disps[-1]))), p["valid"], p["nodata"])
-        r = build.image_dataset(R, MR, None, p["valid"], p["nodata"])
+        r = build.image_dataset(R, MR, None, vr, nr)
         cvds = build.cost_volume_dataset(cv_np, dlist, p["type"], off, sub, vm)
         lb, rb, cb = build.snapshot(l), build.snapshot(r), build.snapshot(cvds)
         agg = aggregation.AbstractAggregation(aggregation_method="cbca", cbca_distance=p["dist"],
@@ -96,7 +99,7 @@ def body(ctx: Ctx, p: dict) -> None:
         return cvds["cost_volume"].data
 
     got = run(cv, disps)
-    exp, big, cut = ref.aggregate(L, R, ML, MR, cv, disps, off, sub, p["dist"], p["inten"], p["valid"])
+    exp, big, cut = ref.aggregate(L, R, ML, MR, cv, disps, off, sub, p["dist"], p["inten"], p["valid"], vr)
     nan_in = np.isnan(cv)
     nan_out = np.isnan(got)
     if (nan_in != nan_out).any():
@@ -107,7 +110,7 @@ def body(ctx: Ctx, p: dict) -> None:
     bad = fin & (np.abs(got - exp) > 1e-5 * np.maximum(1.0, np.abs(exp)))
     if bad.any():
         r, c, k = np.argwhere(bad)[0]
-        masked_near = (ML is not None and (ML != p["valid"]).any()) or (MR is not None and (MR != p["valid"]).any())
+        masked_near = (ML is not None and (ML != p["valid"]).any()) or (MR is not None and (MR != vr).any())
         sig = "C11/distance-1-min-arm-ignores-mask" if (p["dist"] == 1 and masked_near) else "C11/not-region-average"
         ctx.violation(sig, f"cell {(int(r), int(c), int(k))} d={disps[k]} got {got[r, c, k]} expected {exp[r, c, k]} "
                            f"dist={p['dist']} inten={p['inten']} off={off} sub={sub} ({int(bad.sum())} cells differ)")
@@ -120,6 +123,8 @@ def body(ctx: Ctx, p: dict) -> None:
     classes = [f"dist{p['dist']}", f"sub{sub}", f"off{off}"]
     if ML is not None or MR is not None:
         classes.append("masked")
+    if MR is not None and p.get("conv_right") and (vr, nr) != (p["valid"], p["nodata"]):
+        classes.append("right-mask-own-convention")
     ctx.case(p, nontrivial=bool(big and cut), classes=classes)
 
 
